@@ -5,8 +5,8 @@ PROP = {
     "gens": ["gen_api.py"],
     "rule": "Programs: chains of up to 12 operations of a typed-pool state machine (producers of unit vectors, unit quaternions, rotation and affine matrices; precondition-carrying consumers fed from the pools, i.e. with glam's own outputs) are run in a build with glam-assert (and debug-glam-assert in the checked profile) and in the plain build of the same tree; no assertion may fire, every pooled value must pass is_normalized / the affine last-row check, and all returned values must be bit-identical. Documented violations (constructed with >= 6 % margin) must panic with assertions and must not without. The whole API table is also compared between the two builds on arbitrary finite inputs whenever the asserting build returns. Non-trivial chain = at least 3 consumer steps fed by produced values; distinct by chain words.",
     "builds": {
-        "quick": [B("stable"), B("chk", 0.25), B("nightly", 0.25, False)],
-        "thorough": [B("stable"), B("chk", 0.5), B("nightly", 0.5, False)],
+        "quick": [B("stable"), B("fma", 0.25), B("chk", 0.25), B("nightly", 0.25, False)],
+        "thorough": [B("stable"), B("fma", 0.5), B("chk", 0.5), B("nightly", 0.5, False)],
     },
     "volume": {"quick": 3},
     "technique": "stateful (model-based) property-based testing: typed-pool operation sequences compared between glam-assert and plain builds of the same tree linked into one process; enumerated precondition violations; API-table differential",
